@@ -56,6 +56,8 @@ def check(ctx):
   ctx.rule('C19.R9', 'callback gate: the event cleared by the outermost __enter__ of the blocker is set again by the matching __exit__ (set exactly when the nesting count returns to 0); '
                      'the worker waits on it before every batch')
   r9(ctx)
+  ctx.rule('C19.R10', 'no memory between ZooKeeper and the consumer: member payloads are read on every use; the provider passes the join/leave callbacks through unchanged')
+  r10(ctx)
 
 
 def r1(ctx, osc, wk):
@@ -486,3 +488,40 @@ def r9(ctx):
   wk = prog.func(Z, 'ServerSet._notification_worker')
   ctx.ob('C19.R9', wk, 'the worker waits for the gate before applying a batch', any(isinstance(c, ast.Call) and U(c.func).endswith('.ensure_safe') for c in ast.walk(wk.node)),
          'ensure_safe() is not called by the worker', 'a batch applied while get_members() reads the table interleaves with it', nontrivial=False)
+
+
+def r10(ctx):
+  """Nothing between ZooKeeper and the consumer remembers or filters: every member payload is read from ZooKeeper when it is needed, and the
+  provider hands the consumer's callbacks to the server set unchanged."""
+  prog = ctx.prog
+  gi = prog.try_func(Z, 'ServerSet._get_info')
+  why = ('the consumer ends up holding exactly the members present: a node name can come back with another payload (parent re-created: the sequence counter restarts; '
+         'a restarted announcer), so a payload remembered per name announces a member that is not there')
+  if gi is not None:
+    for ev, ex in enum_paths(ctx, gi):
+      if ex[0] != 'ret':
+        continue
+      reads = [e for e in ev if e.kind == 'call' and call_attr(e.node) == 'get' and U(e.node.func.value) == 'self._zk']
+      ctx.ob('C19.R10', gi, 'a member payload is read from ZooKeeper every time it is needed', len(reads) == 1,
+             'a path of _get_info returns without reading the node (%d reads)' % len(reads), why)
+    stores = [st for st in ast.walk(gi.node) if isinstance(st, (ast.Assign, ast.AugAssign)) and any(
+      isinstance(t, (ast.Attribute, ast.Subscript)) and U(t).startswith('self.') for t in (st.targets if isinstance(st, ast.Assign) else [st.target]))]
+    ctx.ob('C19.R10', gi, '_get_info keeps nothing on the server set', not stores, '_get_info stores %s' % [U(s_) for s_ in stores], why)
+  S = 'scales/loadbalancer/serverset.py'
+  ini = prog.func(S, 'ZooKeeperServerSetProvider.Initialize')
+  whyp = ('join/leave are delivered per znode: two live znodes may carry the same payload (a restarted process registers before its old session expires); a filter keyed on the '
+          'Member value swallows the second join and forwards the leave of the first, so the consumer loses a member that is present')
+  calls = [c for c in ast.walk(ini.node) if isinstance(c, ast.Call) and U(c.func).split('.')[-1] == 'ServerSet']
+  ok = False
+  if len(calls) == 1 and len(ini.params) >= 3:
+    a = calls[0].args
+    kw = dict((k.arg, k.value) for k in calls[0].keywords)
+    j = a[2] if len(a) > 2 else kw.get('on_join')
+    l = a[3] if len(a) > 3 else kw.get('on_leave')
+    ok = j is not None and l is not None and U(j) == ini.params[1] and U(l) == ini.params[2]
+  ctx.ob('C19.R10', ini, "the provider hands the consumer's join/leave callbacks to the server set unchanged", ok,
+         'ServerSet(...) is built with %s' % ([U(x) for x in calls[0].args] if calls else None), whyp)
+  gs = prog.func(S, 'ZooKeeperServerSetProvider.GetServers')
+  rets = [r for r in walk_no_nested(gs.node) if isinstance(r, ast.Return) and r.value is not None]
+  okg = bool(rets) and all(U(r.value).replace(' ', '') == 'self._server_set.get_members()' for r in rets)
+  ctx.ob('C19.R10', gs, 'GetServers returns the members the server set reports', okg, 'GetServers returns %s' % [U(r.value) for r in rets], whyp, nontrivial=False)
